@@ -228,7 +228,10 @@ where
                     // were all un-synced records appended while this blob was a closed blob?
                     let cw = ctx.closed_writes.borrow();
                     let recs = w.phys.get(&active).map(|v| v.iter().filter(|r| r.offset >= sh.synced_len).collect::<Vec<_>>()).unwrap_or_default();
-                    let all_closed = !recs.is_empty() && recs.iter().all(|r| r.deleted && cw.contains(&(r.blob, r.offset)));
+                    // the recorded finding: markers appended while the blob was closed are outside pearl's
+                    // accounting; it is the cause whenever the bytes pearl does account for are within the limit
+                    let closed_bytes: u64 = recs.iter().filter(|r| r.deleted && cw.contains(&(r.blob, r.offset))).map(|r| r.total_len).sum();
+                    let all_closed = closed_bytes > 0 && dirty - closed_bytes.min(dirty) <= limit;
                     Some((all_closed, format!("{} has {} un-synced bytes at a quiescent point, limit {}; {}", name, dirty, limit, ctx.last_step_note.borrow())))
                 } else {
                     None
